@@ -121,7 +121,11 @@ C02_qpq(T)    == IF T.fam # "qpq" THEN {} ELSE
                  {k \in 1 .. NA(T) : LET a == T.acts[k] IN
                     /\ a.tag \in {"begin", "round", "transfer"}
                     /\ QpqBeforeRemaining(T, k)
-                    /\ ~EQ(T, QpqWeight(T, a), Cardinality(ElectedAt(a)) * T.S)}
+                    /\ LET e == Cardinality(ElectedAt(a))
+                           \* truncation allowance of e elections at this precision: each sets vc weights to
+                           \* floor(1/floor(qc)), error < vc + (1+tc)^2/vc units; immaterial (< geps) at 9+9 digits
+                           tol == Max2(T.geps, e * (T.n + (1 + T.seats) * (1 + T.seats)) + 1)
+                       IN Abs(QpqWeight(T, a) - e * T.S) >= tol}
 
 ----------------------------------------------------------------------------
 (* C04 -- the prescribed quota; quota holders are elected *)
